@@ -22,36 +22,36 @@ type Job struct {
 	Count    uint64 `json:"count"`
 	Out      string `json:"out"`
 	Journal  string `json:"journal"`
-	Replay   string `json:"replay"`     // replay file (replay/shrink mode)
-	ReplayTo string `json:"replay_to"`  // where to write violations' replay files
-	MaxViol  int    `json:"max_viol"`   // stop after this many violations
-	NoShrink bool   `json:"no_shrink"`  // leave shrinking to the runner
-	ShrinkS  int    `json:"shrink_s"`   // shrink budget (seconds)
-	WallS    int    `json:"wall_s"`     // safety net
-	Samples  int    `json:"samples"`    // how many samples to keep
-	Dump     string `json:"dump"`       // where the watchdog writes stacks
-	Logs     bool   `json:"logs"`       // include role logs in replay output
-	TraceDir string `json:"trace_dir"`  // debugging: write every run's trace there
-	Hashes   bool   `json:"hashes"`     // report the canonical log hash of every run (determinism self-test)
+	Replay   string `json:"replay"`    // replay file (replay/shrink mode)
+	ReplayTo string `json:"replay_to"` // where to write violations' replay files
+	MaxViol  int    `json:"max_viol"`  // stop after this many violations
+	NoShrink bool   `json:"no_shrink"` // leave shrinking to the runner
+	ShrinkS  int    `json:"shrink_s"`  // shrink budget (seconds)
+	WallS    int    `json:"wall_s"`    // safety net
+	Samples  int    `json:"samples"`   // how many samples to keep
+	Dump     string `json:"dump"`      // where the watchdog writes stacks
+	Logs     bool   `json:"logs"`      // include role logs in replay output
+	TraceDir string `json:"trace_dir"` // debugging: write every run's trace there
+	Hashes   bool   `json:"hashes"`    // report the canonical log hash of every run (determinism self-test)
 }
 
 type ReplayFile struct {
-	Property  string     `json:"property"`
-	Profile   string     `json:"profile"`
-	Seed      uint64     `json:"seed"`
-	Index     uint64     `json:"index"`
-	SweepPos  int        `json:"sweep_pos"`
-	Oracle    string     `json:"oracle"`
-	Key       string     `json:"key"`
-	Msg       string     `json:"msg"`
-	Tape      []uint64   `json:"tape"`
-	Minimised bool       `json:"minimised"`
-	OrigLen   int        `json:"orig_tape_len"`
-	ShrinkRun int        `json:"shrink_runs"`
-	LogHash   string     `json:"log_hash"`
-	Trace     []string   `json:"trace"`
-	Note      string     `json:"note,omitempty"`
-	FromSeed  bool       `json:"from_seed,omitempty"` // regenerate the tape from the seed (crash-class violations)
+	Property  string   `json:"property"`
+	Profile   string   `json:"profile"`
+	Seed      uint64   `json:"seed"`
+	Index     uint64   `json:"index"`
+	SweepPos  int      `json:"sweep_pos"`
+	Oracle    string   `json:"oracle"`
+	Key       string   `json:"key"`
+	Msg       string   `json:"msg"`
+	Tape      []uint64 `json:"tape"`
+	Minimised bool     `json:"minimised"`
+	OrigLen   int      `json:"orig_tape_len"`
+	ShrinkRun int      `json:"shrink_runs"`
+	LogHash   string   `json:"log_hash"`
+	Trace     []string `json:"trace"`
+	Note      string   `json:"note,omitempty"`
+	FromSeed  bool     `json:"from_seed,omitempty"` // regenerate the tape from the seed (crash-class violations)
 }
 
 type ViolOut struct {
@@ -64,29 +64,29 @@ type ViolOut struct {
 }
 
 type Out struct {
-	Property   string         `json:"property"`
-	Profile    string         `json:"profile"`
-	Runs       int            `json:"runs"`
-	Steps      int64          `json:"steps"`
-	SimNanos   int64          `json:"sim_ns"`
-	Faults     map[string]int `json:"faults"`
-	FaultsConf map[string]int `json:"faults_conf"`
-	Hooks      map[string]int `json:"hooks"`
-	Probes     map[string]int `json:"probes"`
-	Cells      []string       `json:"cells"`
-	Sigs       []string       `json:"sigs"`
-	NonTrivial int            `json:"nontrivial_runs"`
-	Samples    []any          `json:"samples"`
-	Violations []ViolOut      `json:"violations"`
-	Leaked     int            `json:"leaked"`
-	HarnessErr string         `json:"harness_err,omitempty"`
-	WallS      float64        `json:"wall_s"`
-	WallCapHit bool           `json:"wall_cap_hit"`
+	Property   string            `json:"property"`
+	Profile    string            `json:"profile"`
+	Runs       int               `json:"runs"`
+	Steps      int64             `json:"steps"`
+	SimNanos   int64             `json:"sim_ns"`
+	Faults     map[string]int    `json:"faults"`
+	FaultsConf map[string]int    `json:"faults_conf"`
+	Hooks      map[string]int    `json:"hooks"`
+	Probes     map[string]int    `json:"probes"`
+	Cells      []string          `json:"cells"`
+	Sigs       []string          `json:"sigs"`
+	NonTrivial int               `json:"nontrivial_runs"`
+	Samples    []any             `json:"samples"`
+	Violations []ViolOut         `json:"violations"`
+	Leaked     int               `json:"leaked"`
+	HarnessErr string            `json:"harness_err,omitempty"`
+	WallS      float64           `json:"wall_s"`
+	WallCapHit bool              `json:"wall_cap_hit"`
 	Hashes     map[string]string `json:"hashes,omitempty"`
 	// replay mode
-	Reproduced bool     `json:"reproduced"`
-	LogHash    string   `json:"log_hash,omitempty"`
-	Trace      []string `json:"trace,omitempty"`
+	Reproduced bool                `json:"reproduced"`
+	LogHash    string              `json:"log_hash,omitempty"`
+	Trace      []string            `json:"trace,omitempty"`
 	RoleLogs   map[string][]string `json:"role_logs,omitempty"`
 }
 
